@@ -29,7 +29,8 @@ META = {
     "crates": ["c01"],
 }
 
-ACTIONS = ["BuildFailCodec", "WriteSingleUnit", "WriteSector", "FinishFile", "AddHash", "ReadFile", "ReadAbsent"]
+ACTIONS = ["BuildFailCodec", "WriteSingleUnit", "WriteSector", "FinishFile", "AddHash", "ReadFile", "ReadAbsent", "Deliver"]
+HETBET_ACTIONS = ["HetProbe", "BetVerify"]   # only in configurations with UseHetBet
 
 
 def mc_nocov(ctx, module, cfg, workers=8, timeout=600, expect_violation=None):
@@ -46,7 +47,9 @@ def mc_nocov(ctx, module, cfg, workers=8, timeout=600, expect_violation=None):
     if rc != 0 or "No error has been found" not in text or not m:
         raise core.ToolError(f"stage A: model check {module}/{cfg} failed rc={rc}:\n" + core._tail(text))
     seen = set(re.findall(r'<<"ACTION", "(\w+)">>', text))
-    missing = [a for a in ACTIONS if a not in seen]
+    need = ACTIONS + (HETBET_ACTIONS if cfg in ("MC_MpqBuild_fixed", "MC_MpqBuild_betfix") else []) \
+        + (["ClassicFallback"] if cfg != "MC_MpqBuild_betfix" or True else [])
+    missing = [a for a in need if a not in seen]
     if missing:
         raise core.ToolError(f"stage A: actions never taken in {cfg}: {missing} (vacuous model)")
     st = {"module": module, "cfg": cfg, "states": int(m.group(2)), "transitions": int(m.group(1)),
@@ -86,6 +89,19 @@ def fix_applied():
     return i >= 0 and "flags |= BlockEntry::FLAG_COMPRESS;" in t[i:j if j > i else i + 1500]
 
 
+def bet_fix_applied():
+    """Does the builder of the tree under test store the lookup3 value (het_hash) in the BET table?"""
+    import os
+    src = os.path.join(core.repo_root(), "file-formats/archives/wow-mpq/src/builder.rs")
+    try:
+        t = open(src).read()
+    except OSError:
+        return False
+    i = t.find("fn create_bet_table")
+    j = t.find("fn write_bet_table", i)
+    return i >= 0 and "jenkins_hash(filename)" not in t[i:j if j > i else len(t)]
+
+
 def stage_a(ctx):
     import concurrent.futures as cf
     rc, text = ctx.tlc("MC_MpqBuildHash", "MC_MpqBuildHash", workers=1, timeout=300, tag="mc-hash")
@@ -96,14 +112,16 @@ def stage_a(ctx):
     # FlagFix = TRUE (no such deviation: FixRemovesDeviation) afterwards.  quick checks that one; thorough checks both
     # and the limit region (sector size 4096).
     fixed = fix_applied()
-    ctx.notes.append("tree under test carries the F-C01-a fix: %s" % fixed)
-    main = "MC_MpqBuild_fixed" if fixed else "MC_MpqBuild"
-    other = "MC_MpqBuild" if fixed else "MC_MpqBuild_fixed"
+    betfix = bet_fix_applied()
+    ctx.notes.append("tree under test: F-C01-a fix present: %s; BET table holds lookup3 hashes: %s" % (fixed, betfix))
+    # the configuration that describes the code under test
+    main = "MC_MpqBuild" if not fixed else ("MC_MpqBuild_betfix" if betfix else "MC_MpqBuild_fixed")
     jobs = [(main, 7, None), ("MC_MpqBuild_neg", 1, "NegNoFlagDeviation")]
     if ctx.thorough:
-        jobs = [(main, 3, None), ("MC_MpqBuild_limits", 2, None), (other, 2, None),
+        others = [c for c in ("MC_MpqBuild", "MC_MpqBuild_fixed", "MC_MpqBuild_betfix") if c != main]
+        jobs = [(main, 2, None), ("MC_MpqBuild_limits", 2, None), (others[0], 2, None), (others[1], 2, None),
                 ("MC_MpqBuild_neg", 1, "NegNoFlagDeviation")]
-    with cf.ThreadPoolExecutor(max_workers=4) as ex:
+    with cf.ThreadPoolExecutor(max_workers=5) as ex:
         futs = [ex.submit(mc_nocov, ctx, "MC_MpqBuild", cfg, w, 1200, neg) for cfg, w, neg in jobs]
         for f in futs:
             f.result()
@@ -151,7 +169,8 @@ def run(ctx, cases_override=None):
         with open(p, "w") as f:
             f.write("".join(by_shift[sh]))
         n = len(by_shift[sh])
-        return c.validate("Trace_MpqBuild", p, env={"C01_S": 512 << sh, "C01_FLAGFIX": "1" if fix_applied() else "0"}, shards=max(1, min(5, n // 2000)) if not ctx.thorough else max(1, min(4, n // 20000)))
+        return c.validate("Trace_MpqBuild", p, env={"C01_S": 512 << sh, "C01_FLAGFIX": "1" if fix_applied() else "0",
+                                                            "C01_BETFIX": "1" if bet_fix_applied() else "0"}, shards=max(1, min(5, n // 2000)) if not ctx.thorough else max(1, min(4, n // 20000)))
 
     with cf.ThreadPoolExecutor(max_workers=9) as ex:
         for res in ex.map(validate_shift, sorted(by_shift)):
